@@ -901,4 +901,11 @@ def r10_12(ctx: Ctx, rule: str = "R10.12", spellings: Optional[Dict[str, str]] =
     return rr
 
 
-RULES = [r10_1, r10_2, r10_3, r10_4, r10_5, r10_6, r10_7, r10_8, r10_9, r10_10, r10_11, r10_12]
+def r10_13(ctx: Ctx) -> RuleResult:
+    """String contents under quoting and escaping: = R3.11 (writer and reader of quoted text executed on covering samples)."""
+    from .c03 import name_round_trip
+
+    return name_round_trip(ctx, "R10.13")
+
+
+RULES = [r10_1, r10_2, r10_3, r10_4, r10_5, r10_6, r10_7, r10_8, r10_9, r10_10, r10_11, r10_12, r10_13]
